@@ -45,6 +45,8 @@ type Step struct {
 	G     int    `json:"g,omitempty"`
 	First int    `json:"first,omitempty"`
 	N     int    `json:"n,omitempty"`
+	// vrace only: one race of a variadic Subscribe against Close / cancel (race.go)
+	Race *RaceSpec `json:"race,omitempty"`
 }
 
 type Scenario struct {
